@@ -32,9 +32,24 @@ func (s Span) String() string {
 //   - a brace-less statement list (alternative syntax bodies) and the
 //     statement lists of case/default spans its statements, and an empty one
 //     yields -1 for the boundary it forms (offset and line).
-func ExpectedSpan(n ast.Vertex) Span { return expectedSpan(n, nil) }
+func ExpectedSpan(n ast.Vertex) Span { return expectedSpan(n, nil, nil) }
 
-func expectedSpan(n ast.Vertex, known *[]string) Span {
+// expectedSpan memoises per node in memo (when not nil): a node's span is built from its children's
+// spans, and CheckPositions asks for every node of the tree.
+func expectedSpan(n ast.Vertex, known *[]string, memo map[ast.Vertex]Span) Span {
+	if memo != nil {
+		if s, ok := memo[n]; ok {
+			return s
+		}
+	}
+	s := expectedSpan1(n, known, memo)
+	if memo != nil {
+		memo[n] = s
+	}
+	return s
+}
+
+func expectedSpan1(n ast.Vertex, known *[]string, memo map[ast.Vertex]Span) Span {
 	type edge struct{ line, pos int }
 	none := edge{-1, -1}
 	var first, last edge
@@ -46,7 +61,7 @@ func expectedSpan(n ast.Vertex, known *[]string) Span {
 		last = e
 	}
 	addChild := func(c ast.Vertex) bool {
-		cs := expectedSpan(c, known)
+		cs := expectedSpan(c, known, memo)
 		if cs.Nil {
 			return false
 		}
@@ -58,7 +73,7 @@ func expectedSpan(n ast.Vertex, known *[]string) Span {
 		if len(v.Stmts) == 0 {
 			return Span{false, -1, -1, -1, -1}
 		}
-		f, l := expectedSpan(v.Stmts[0], known), expectedSpan(v.Stmts[len(v.Stmts)-1], known)
+		f, l := expectedSpan(v.Stmts[0], known, memo), expectedSpan(v.Stmts[len(v.Stmts)-1], known, memo)
 		return Span{false, f.StartLine, l.EndLine, f.StartPos, l.EndPos}
 	case *ast.StmtTry:
 		if len(v.Catches) == 0 && v.Finally == nil && v.TryTkn != nil && v.TryTkn.Position != nil && known != nil {
@@ -81,7 +96,7 @@ func expectedSpan(n ast.Vertex, known *[]string) Span {
 		if len(stmts) == 0 {
 			last = none
 		} else {
-			l := expectedSpan(stmts[len(stmts)-1], known)
+			l := expectedSpan(stmts[len(stmts)-1], known, memo)
 			last = edge{l.EndLine, l.EndPos}
 		}
 		if !have {
@@ -152,6 +167,7 @@ const (
 // the node's recorded offsets, so they are not taken on trust from the tokens.
 func CheckPositions(root ast.Vertex, php5 bool, src []byte) PosReport {
 	rep := PosReport{Sites: map[string]int{}}
+	memo := map[ast.Vertex]Span{}
 	var lines *Lines
 	if src != nil {
 		lines = NewLines(src)
@@ -161,7 +177,7 @@ func CheckPositions(root ast.Vertex, php5 bool, src []byte) PosReport {
 		rep.Nodes++
 		rep.Sites[site]++
 		got := SpanOf(n.GetPosition())
-		want := expectedSpan(n, &rep.Known)
+		want := expectedSpan(n, &rep.Known, memo)
 		tainted := false
 		if got != want {
 			if k := knownSpan(n, parent, slot, got, want, php5, inNewClass); k != "" {
